@@ -1,4 +1,6 @@
 import WitnessVerif.Proofs.Linearizable
+import WitnessVerif.Proofs.SqlSerial
+import WitnessVerif.Generated.Facts
 import WitnessVerif.Proofs.Frame
 /-
 C05 — concurrent updates behave like some sequential order; state never regresses.
@@ -53,5 +55,26 @@ theorem C05_accepted_in_order (cfg : Wit.Cfg) (reqs : List Wit.Req) (s0 : Option
     (h : (runSched (decOf cfg) reqs { store := s0, pcs := reqs.map (fun _ => .idle), lin := [] } sched).pcs[i]? = some (.done (.ok r))) :
     (i, r) ∈ (runSched (decOf cfg) reqs { store := s0, pcs := reqs.map (fun _ => .idle), lin := [] } sched).lin :=
   (C05_linearizable_inmem cfg reqs s0 sched).2.1 i r h
+
+end C05
+
+namespace C05
+open Lin
+
+/-- the production binary opens SQLite with a pool of one connection (regenerated from
+    cmd/omniwitness/monolith.go on every run): the premise of `C05_linearizable_sql` -/
+theorem C05_pool_is_single : Facts.maxOpenConns = 1 := by decide
+
+/-- SQLite with the single-connection pool: for any number of concurrent updates of one log and any
+    interleaving of their storage calls (a `WriteOps` issued while another transaction is open waits),
+    the outcomes are those of the requests executed one at a time in the linearisation order, and no
+    request fails with a storage error -/
+theorem C05_linearizable_sql (cfg : Wit.Cfg) (reqs : List Wit.Req) (s0 : Option Bytes) (sched : List Nat) :
+    let init : SqlSys Bytes Wit.Out := { sys := { store := s0, pcs := reqs.map (fun _ => .idle), lin := [] }, owner := none }
+    let fin := runSql (decOf cfg) reqs init sched
+    Replays (decOf cfg) reqs s0 fin.sys.lin fin.sys.store ∧
+    (∀ i r, fin.sys.pcs[i]? = some (.done (.ok r)) → (i, r) ∈ fin.sys.lin) ∧
+    (∀ i : Nat, fin.sys.pcs[i]? ≠ some (PC.done (V := Bytes) (R := Wit.Out) Out.storageErr)) :=
+  linearizable_sql (decOf cfg) reqs s0 sched
 
 end C05
